@@ -97,10 +97,11 @@ def render_config(cfg, syntax, style=None):
         lines.append("version_pattern%s%s" % (eq, toml_str(cfg["version_pattern"], style.get("toml_literal"))))
         for key in STRING_KEYS:
             if cfg.get(key) is not None:
-                # (the toml 0.10 parser drops blank lines at the start and blanks at line ends of multi-line strings; such
+                # (the toml 0.10 parser drops blank lines at the start and blanks at line ends of multi-line strings, and loses line
+                # feeds next to quote characters; such
                 # values are written as one-line strings)
                 if style.get("toml_multiline") and "\n" in cfg[key] and all(
-                        ln and ln == ln.strip() and not ln.endswith("\\") for ln in cfg[key].split("\n")):
+                        ln and ln == ln.strip() and not any(ch in ln for ch in "'\"\\") for ln in cfg[key].split("\n")):
                     lines.append("%s%s%s" % (key, eq, toml_multiline(cfg[key])))
                 else:
                     lines.append("%s%s%s" % (key, eq, toml_str(cfg[key], style.get("toml_literal"))))
